@@ -41,6 +41,37 @@ pub fn refused_ops(n: usize) {
         let _ = util::zxy(u64::MAX - n as u64);
         let _ = util::zxy(6_148_914_691_236_517_205 + n as u64);
     }));
+    // a save that fails at one of its last operations (header write, final seek, ...), sync and async in turn
+    let _ = catch_unwind(AssertUnwindSafe(|| {
+        use crate::streams::{AsyncStream, Core, SyncStream};
+        macro_rules! fill {
+            ($p:expr) => {{
+                let mut p = $p;
+                let _ = p.add_tile(1, vec![9u8; 40]);
+                let _ = p.add_tile(5, vec![8u8; 3]);
+                p.max_zoom = 10;
+                p
+            }};
+        }
+        thread_local! { static SAVE_OPS: std::cell::Cell<usize> = const { std::cell::Cell::new(0) }; }
+        let total = SAVE_OPS.with(|c| {
+            if c.get() == 0 {
+                let mut s = SyncStream(Core::new(Vec::new(), 0));
+                let _ = fill!(PMTiles::new(TileType::Png, Compression::None)).to_writer(&mut s);
+                c.set(s.0.ops.max(1));
+            }
+            c.get()
+        });
+        let mut core = Core::new(Vec::new(), 0);
+        core.fail_from = Some(total.saturating_sub(1 + n % 4));
+        if n % 2 == 0 {
+            let mut s = SyncStream(core);
+            let _ = fill!(PMTiles::new(TileType::Png, Compression::None)).to_writer(&mut s);
+        } else {
+            let mut s = AsyncStream(core);
+            let _ = block_on(fill!(PMTiles::new_async(TileType::Png, Compression::None)).to_async_writer(&mut s));
+        }
+    }));
     let _ = catch_unwind(|| util::tile_id(32 + (n % 9) as u8, n as u64, 7));
     let _ = catch_unwind(|| util::tile_id((n % 32) as u8, u64::MAX - n as u64, 1 << 40));
 }
